@@ -27,9 +27,9 @@ Section Rules.
   Proof.
     intros (Hwa & _) H. unfold borrow_asset in H. destr_all H.
     - destruct (draw_pool _ _ _ _ _ _ _ H) as (b0 & Hb0 & Hp). eexists _, _, b0. repeat split; eassumption.
-    - unfold holds_C08_pool. rewrite E1, E16. destruct (Hwa _ _ E4) as (_ & Hid). apply Z.leb_le. replace (pr_out p) with dout by lia. lia.
-    - unfold holds_C08_pool. rewrite E1, E16. destruct (Hwa _ _ E4) as (_ & Hid). apply Z.leb_le. replace (pr_out p) with dout by lia. lia.
-    - unfold holds_C08_pool. rewrite E1, E16. destruct (Hwa _ _ E4) as (_ & Hid). apply Z.leb_le. replace (pr_out p) with dout by lia. lia.
+    - unfold holds_C08_pool. rewrite E3, E18. destruct (Hwa _ _ E6) as (_ & Hid). apply Z.leb_le. replace (pr_out p) with dout by lia. lia.
+    - unfold holds_C08_pool. rewrite E3, E18. destruct (Hwa _ _ E6) as (_ & Hid). apply Z.leb_le. replace (pr_out p) with dout by lia. lia.
+    - unfold holds_C08_pool. rewrite E3, E18. destruct (Hwa _ _ E6) as (_ & Hid). apply Z.leb_le. replace (pr_out p) with dout by lia. lia.
   Qed.
 
   (* ---------- IterateLends: what it does to the position and what it leaves alone ---------- *)
